@@ -22,8 +22,42 @@ func (fr *frame) get(h ir.ExpressionHandle) Val {
 	if ClassOf(kind) == ClassPreEmit {
 		return fr.evalKind(h, kind, fr.get)
 	}
+	if fr.inv.mc.cfg.Lazy && ClassOf(kind) == ClassEmit && fr.inv.mc.neverEmitted(fr.f)[h] {
+		fr.inv.mc.step()
+		return fr.eval(h)
+	}
 	trapf("use-before-emit: [%d] %s has no value at this point", h, kindName(kind))
 	return Val{}
+}
+
+// neverEmitted marks the expressions of f that no Emit statement covers.
+func (mc *machine) neverEmitted(f *ir.Function) []bool {
+	if l, ok := mc.unemitted[f]; ok {
+		return l
+	}
+	out := make([]bool, len(f.Expressions))
+	for i := range out {
+		out[i] = true
+	}
+	var walk func(b ir.Block, d int)
+	walk = func(b ir.Block, d int) {
+		if d > 2000 {
+			return
+		}
+		for _, s := range b {
+			if e, ok := s.Kind.(ir.StmtEmit); ok {
+				for h := e.Range.Start; h < e.Range.End && int(h) < len(out); h++ {
+					out[h] = false
+				}
+			}
+			for _, sb := range SubBlocks(s.Kind) {
+				walk(sb, d+1)
+			}
+		}
+	}
+	walk(ir.Block(f.Body), 0)
+	mc.unemitted[f] = out
+	return out
 }
 
 // eval computes expression h at its Emit statement.
@@ -40,6 +74,9 @@ func (fr *frame) eval(h ir.ExpressionHandle) Val {
 		sk := fr.f.Expressions[k.Source].Kind
 		if ClassOf(sk) == ClassPreEmit {
 			return fr.evalKind(k.Source, sk, fr.get)
+		}
+		if fr.inv.mc.cfg.Lazy && ClassOf(sk) == ClassEmit && fr.inv.mc.neverEmitted(fr.f)[k.Source] {
+			return fr.get(k.Source)
 		}
 		trapf("alias-before-def: [%d] aliases [%d] %s which has no value at this point", h, k.Source, kindName(sk))
 	case ir.ExprPhi:
